@@ -5,6 +5,7 @@ mod client;
 mod comp_broker;
 mod comp_cost;
 mod comp_exch;
+mod comp_perf;
 mod comp_sched;
 mod comp_server;
 mod util;
@@ -31,6 +32,7 @@ fn main() {
             "exch" => comp_exch::run(sc),
             "server" => comp_server::run(sc),
             "broker" => comp_broker::run(sc),
+            "perf" => comp_perf::run(sc),
             _ => panic!("unknown component {comp}"),
         });
         out.push(match r {
